@@ -14,7 +14,7 @@ ASSUMPTIONS = [
     "containment judged with slack 1e-9 x die size; fixed coordinates with 1e-9 x die size (the code re-centres by (c-h)+h)",
     "only start vectors an actual seed produces are used (a hand-made degenerate start would be a false alarm by construction)",
 ]
-CASES = {"quick": 480, "thorough": 6000}
+CASES = {"quick": 480, "thorough": 20000}
 MIN_CASES = {"quick": 60, "thorough": 1500}
 REQUIRED_COUNTERS = ["trials_judged_by_contract", "layouts_judged", "movable_discs_checked", "fixed_modules_checked", "fixed_terminals_checked", "hard_modules_checked", "layouts_after_earlier_queries"]
 REQUIRED_CLASSES = ["fixed0", "fixed1"]
